@@ -78,7 +78,10 @@ theorem exprTy_verdicts {env : Env} {vars : List (String × Ty)} {e : Expr} {τ 
     · intro _
       simp [checkExpr, ihl.access, ihr.access, hord, har, ihl.number rfl, ihr.number rfl]
     · intro _
-      simp [exprIsNumber, ihl.number rfl, ihr.number rfl]
+      have hb : ¬ op ∈ boolOps := by
+        simp only [List.mem_cons, List.not_mem_nil, or_false] at hop
+        rcases hop with rfl | rfl | rfl | rfl <;> decide
+      simp [exprIsNumber, hb, ihl.number rfl, ihr.number rfl]
   | ordNum op l r hop _ _ ihl ihr =>
     have hord : op ∈ ordOps := by
       simp only [List.mem_cons, List.not_mem_nil, or_false] at hop
